@@ -20,6 +20,7 @@ mod scen_c15;
 mod scen_c16;
 mod scen_c17;
 mod scen_c18;
+mod scen_native;
 mod scen_r1cs;
 mod shapes;
 
@@ -55,6 +56,35 @@ macro_rules! on_curve {
             c => panic!("unknown curve {}", c),
         }
     };
+}
+
+/// torsion points (orders 2, 4, 8) of the cofactor-8 curve, obtained as r * P for an unchecked P
+fn ed_torsion() -> Vec<Ed> {
+    use ark_ec::{AffineRepr, CurveGroup};
+    use ark_ff::{PrimeField, UniformRand};
+    use rand_core::SeedableRng;
+    let mut rng = rand_chacha::ChaChaRng::seed_from_u64(8);
+    loop {
+        let y = ark_curve25519::Fq::rand(&mut rng);
+        if let Some(p) = Ed::get_point_from_y_unchecked(y, true) {
+            let t = p.mul_bigint(ark_curve25519::Fr::MODULUS);
+            let t2 = t + t;
+            let t4 = t2 + t2;
+            if !t4.into_affine().is_zero() {
+                return vec![t.into_affine(), t2.into_affine(), t4.into_affine()];
+            }
+        }
+    }
+}
+
+fn native_job(prop: &str, name: &str, curve: &str, seed: u64, checks: Vec<(String, bool)>, replay: serde_json::Value) -> Job {
+    let mut job = Job { property: prop.into(), scenario: format!("{}:{}:{}", prop, name, curve), curve: curve.into(), seed, ..Default::default() };
+    for (n, ok) in checks {
+        job.check(&n, ok, String::new());
+    }
+    job.params = serde_json::json!({"kind": "concrete native companion of the Kani harness (no symbolic input)"});
+    job.replay = replay;
+    job
 }
 
 fn tasks_for(prop: &str, tier: &str, seed: u64) -> Vec<Task> {
@@ -277,6 +307,33 @@ fn tasks_for(prop: &str, tier: &str, seed: u64) -> Vec<Task> {
             }
             out
         }
+        "C08" | "C11" | "C12" => {
+            let mut out = vec![];
+            for c in ["secq256k1", "zorro", "curve25519"] {
+                let (c, prop) = (c.to_string(), prop.to_string());
+                let maxlen = if thorough { 4 } else { 3 };
+                let replay = serde_json::json!({"kind": prop.to_lowercase(), "curve": c, "maxlen": maxlen, "seed": seed});
+                out.push(Task {
+                    name: format!("{}:native:{}", prop, c),
+                    replay: replay.clone(),
+                    run: Box::new(move || {
+                        let checks = match (prop.as_str(), c.as_str()) {
+                            ("C08", "secq256k1") => scen_native::c08_native::<Secq>(seed, maxlen),
+                            ("C08", "zorro") => scen_native::c08_native::<Zorro>(seed, maxlen),
+                            ("C08", _) => scen_native::c08_native::<Ed>(seed, maxlen),
+                            ("C11", "secq256k1") => scen_native::c11_native::<Secq>(seed, None),
+                            ("C11", "zorro") => scen_native::c11_native::<Zorro>(seed, None),
+                            ("C11", _) => scen_native::c11_native::<Ed>(seed, Some(ed_torsion())),
+                            ("C12", "secq256k1") => scen_native::c12_native::<Secq>(maxlen + 1),
+                            ("C12", "zorro") => scen_native::c12_native::<Zorro>(maxlen + 1),
+                            _ => scen_native::c12_native::<Ed>(maxlen + 1),
+                        };
+                        native_job(&prop, "native", &c, seed, checks, replay)
+                    }),
+                });
+            }
+            out
+        }
         "C09" => {
             let mut out = vec![];
             for (k, shape) in scen_c09::c09_shapes(thorough, seed).into_iter().enumerate() {
@@ -476,7 +533,7 @@ fn main() {
                     println!("REPLAY {}", if any_wrong { "REPRODUCED" } else { "NOT-REPRODUCED" });
                     std::process::exit(if any_wrong { 1 } else { 0 });
                 }
-                Some(kind @ ("c10" | "c13" | "c15" | "c07" | "c06" | "c09" | "c05" | "c04" | "c03" | "c18" | "c17" | "c16")) => {
+                Some(kind @ ("c10" | "c13" | "c15" | "c07" | "c06" | "c09" | "c05" | "c04" | "c03" | "c18" | "c17" | "c16" | "c08" | "c11" | "c12")) => {
                     let seed = rp["seed"].as_u64().unwrap_or(0);
                     let mut any_wrong = false;
                     for (k, m) in [(0u64, model.clone()), (1, HashMap::new()), (2, HashMap::new())] {
@@ -491,6 +548,11 @@ fn main() {
                                 replay::diff_native::<Secq>(&shape, seed + k)
                             }
                             "c16" => scen_c16::enumerate_opt::<Secq>(rp["max1"].as_u64().unwrap() as usize, rp["max2"].as_u64().unwrap() as usize, seed + k, |s| Box::new(job::PlainVals::<ark_secq256k1::Fr>::new(HashMap::new(), s)), true).1,
+                            "c08" => scen_native::c08_native::<Secq>(seed, rp["maxlen"].as_u64().unwrap_or(3) as usize),
+                            "c11" => {
+                                if rp["curve"].as_str() == Some("curve25519") { scen_native::c11_native::<Ed>(seed, Some(ed_torsion())) } else { scen_native::c11_native::<Secq>(seed, None) }
+                            }
+                            "c12" => scen_native::c12_native::<Secq>(rp["maxlen"].as_u64().unwrap_or(3) as usize + 1),
                             "c17" => {
                                 let shape: r1cs::Shape = serde_json::from_value(rp["shape"].clone()).unwrap();
                                 scen_c17::capacity_grid::<Secq>(&shape, seed + k, || Box::new(job::PlainVals::<ark_secq256k1::Fr>::new(HashMap::new(), seed + k)))
